@@ -40,6 +40,27 @@ CLAIMED = {
    "Exhaustive slices (17 subjects x 22^3 bounds, 16 syntactic/delivery forms; quick: all extreme-bound cases + 1/8 stride), exhaustive index paths of depth<=3 over two nested shapes x 19 keys x {read, write, compound write, write through alias}, random alias/mutation/snapshot programs incl. load_json values; compared with the reference model (CPython slice algorithm, reference sharing, add_key JSON snapshot).",
    "Non-ASCII string slices accept byte-wise or rune-wise results (reference silent); nil-valued bounds accept omitted-or-error.",
    "bounded exhaustive enumeration + model-based property testing (rapid)"),
+
+ "C09": ("exploration",
+   "Exhaustive enumeration of all script sets of 1..3 scripts (each valid with 0..2 use() calls to any member, itself or a missing name, or unparsable, or check-failing) under every insertion order and repeated loads, 4-script sets sampled (quick) / complete (thorough), compared with a graph model: verdict partition, binding of every accepted use call, exact error chains. The visiting order (map iteration) is reached through insertion order x repetition.",
+   "Visiting orders are sampled, not enumerated (no hook). For cycles the first chain entry may be the rejected script at one of its use calls or the closing call.",
+   "bounded exhaustive enumeration of configurations against a reference graph model (plus rapid sampling for 4-script sets)"),
+ "C13": ("exploration",
+   "Random call trees (depth <= 3, 2..4 scripts) whose bodies share one name pool and the point, with exit() and failing statements inserted at sampled statement positions of every script; ordered probe trace, final point and the exact error chain (failing statement in the callee, then every use call site outward) are compared with the reference model.",
+   "Call graphs are acyclic by construction; loading goes through ParseScript. Insert positions are sampled (6 per set quick, 16 thorough), not all enumerated.",
+   "model-based property testing (rapid) over script sets"),
+ "C14": ("fault_enumeration",
+   "For each generated loop-bearing program the cancellation signal is made to fire at every poll index k (the harness owns the signal): the run must return nil, its probe trace must be a prefix of the uninterrupted trace, and no probe may execute after the poll that returned true; 11 non-terminating programs (empty bodies, nested, inside callees) x k<=60/200, both interpreters.",
+   "Promptness is measured in polls/probe calls, not time; a 20 s watchdog is the only clock and only matters for empty-bodied infinite loops. Fault points are the signal's polls, i.e. the interpreter's own poll sites.",
+   "fault enumeration over the poll index of a harness-owned cancellation signal, on rapid-generated programs"),
+ "C18": ("exploration",
+   "Exhaustive (value-less construct x consuming position x predecessor) table (7 x 27 x 7) and random v2 programs with multi-assignment, swaps and multi-value functions, compared with the reference model in the v2 dialect; programs inside the common language are additionally run on v1 and must give the same trace.",
+   "v2 builtins come from the harness's function table and read their arguments through GetParam, like real v2 builtins.",
+   "exhaustive table + model-based and differential (v1 vs v2) property testing (rapid)"),
+ "C19": ("exploration",
+   "All 3616 parameter lists of length <= 3 (and, thorough, all 50625 of length 4) are validated against a reference validator; every valid list is crossed with all 781 call shapes of <= 4 arguments (thorough: <= 5) and the values received through GetParam are compared with a reference binder; typed getters with well/ill-typed arguments.",
+   "Names from {a,b,c,1x,\"\"}; argument values are integer literals.",
+   "exhaustive enumeration against a reference binder, plus rapid sampling of longer lists/calls"),
 }
 PENDING_REASON = "check not built yet at this commit (work in progress; see DESIGN.md section 4 for the planned PBT design)"
 
